@@ -249,6 +249,29 @@ pub(crate) fn rewrite_comment(
     identify_comment(orig, block_style, shape, config, false)
 }
 
+/// Returns the byte offset right behind the `*/` that closes the block comment `orig` starts
+/// with (block comments nest), or the length of `orig` when it is not closed.
+fn block_comment_end(orig: &str) -> usize {
+    let bytes = orig.as_bytes();
+    let mut depth = 0usize;
+    let mut i = 0;
+    while i + 1 < bytes.len() {
+        if bytes[i] == b'/' && bytes[i + 1] == b'*' {
+            depth += 1;
+            i += 2;
+        } else if bytes[i] == b'*' && bytes[i + 1] == b'/' && depth > 0 {
+            depth -= 1;
+            i += 2;
+            if depth == 0 {
+                return i;
+            }
+        } else {
+            i += 1;
+        }
+    }
+    orig.len()
+}
+
 fn identify_comment(
     orig: &str,
     block_style: bool,
@@ -313,7 +336,7 @@ fn identify_comment(
         // for a block comment, search for the closing symbol
         CommentStyle::DoubleBullet | CommentStyle::SingleBullet | CommentStyle::Exclamation => {
             let closer = style.closer().trim_start();
-            let mut count = orig.matches(closer).count();
+            let comment_end = block_comment_end(orig);
             let mut closing_symbol_offset = 0;
             let mut hbl = false;
             let mut first = true;
@@ -333,11 +356,9 @@ fn identify_comment(
                     trimmed_line = &trimmed_line[opener.len()..];
                     first = false;
                 }
-                if trimmed_line.ends_with(closer) {
-                    count -= 1;
-                    if count == 0 {
-                        break;
-                    }
+                // A block comment on a later line is not a part of this one.
+                if trimmed_line.ends_with(closer) && comment_end <= closing_symbol_offset {
+                    break;
                 }
             }
             (hbl, closing_symbol_offset)
